@@ -6,6 +6,13 @@
    through others, ends in the "recursive include" error.  [resolve_old] is the function of the
    unchanged tree (no stack): it runs out of any fuel on a self-including module, which is how the
    stack overflow shows up.  No proofs in this file. *)
+(* MODULE IDENTITY: a module number stands for an INCLUDE STRING AS WRITTEN (include.Module.Value), which is what the
+   interpreter's recursion guard compares - not for the file or source the resolver returns.  Under the file resolver
+   several strings designate one file ("m", "m.vcl", "sub/m", "m" through an include path): each spelling is its own
+   module here, with the same body.  A cycle through different spellings of one file is therefore cut one level later
+   than a cycle through one spelling, and still within fuel = number of spellings + 1 (include_total).  The tie
+   (checks/c08.py run_include_resolvers) runs the same graphs through the in-memory resolver, a stub resolver whose
+   source name differs from the include string, resolver.NewFileResolvers on files on disk and the falco test process. *)
 From Coq Require Import List Arith Bool.
 From Falco Require Import Base.Res.
 Import ListNotations.
